@@ -43,7 +43,7 @@ pub fn case(idx: u64, seed: u64, p: &Params, o: &mut CaseOut) {
     let mut rows: Vec<Vec<isize>> = Vec::new();
     for u in 0..n {
         let want: Vec<isize> = c07::ref_row(&m, u).expect("harness: negative circuit").into_iter().map(|x| if x == isize::MAX { x } else { x * k }).collect();
-        let got: Vec<isize> = (0..n).map(|v| dist[(u, v)]).collect();
+        let got: Vec<isize> = crate::ctx::via_graaf(|| (0..n).map(|v| dist[(u, v)]).collect());
         o.check(got == want, "row", || format!("row {u}: got {got:?} want {want:?}"));
         o.check(got[u] == 0, "diagonal", || format!("dist[({u},{u})] = {}", got[u]));
         // row u equals BellmanFordMoore from u
